@@ -338,6 +338,26 @@ func runC01(ctx *Ctx) {
 			report(out, "pager", optSpec{}, map[string]interface{}{"html": src, "kind": "pager", "page_url": c.PageURL, "algo": algo})
 		}
 	}
+	// 8. the article extractor on pages shaped after its filters' thresholds: through Apply
+	// (fuzz), and stage by stage against the model whose totality theorem (filters_total) covers
+	// the index arithmetic of SimilarSiblingContent; a panic of the real filters is a violation
+	fl := newCorr("filters")
+	for i := 0; i < ctx.pick(300, 20000); i++ {
+		src := newPageGen(newRng(ctx.Seed, fmt.Sprintf("C01/fs/%d", i))).FilterStressPage()
+		o := optSpec{URL: "http://example.com/dir/story"}
+		report(guarded(func() (*distiller.Result, error) { return distiller.Apply(parseDoc(src).Root, o.build()) }, limit), "filter-stress", o, map[string]interface{}{"html": src, "kind": "document", "opts": o})
+		for _, skip := range []bool{true, false} {
+			func() {
+				defer func() {
+					if e := recover(); e != nil {
+						rep.violate(map[string]string{"clause": "panic", "panic_site": "article-extractor", "root": "filter-stress"}, fmt.Sprintf("panic in the article extractor: %v", e), map[string]interface{}{"html": src, "kind": "document", "opts": o})
+					}
+				}()
+				addFiltersCase(fl, rep, src, pageURL, skip, map[string]interface{}{"html": src, "kind": "document", "opts": o})
+			}()
+		}
+	}
+	fl.run(ctx)
 	// 7. the byte-level model of PathComponentPagePattern.IsPagingURL (theorem
 	// paging_url_total is about it) against the real method on probe URLs; a panic of the real
 	// method shows up as 'P' in its answer
